@@ -239,4 +239,41 @@ example : ∀ q ∈ [3, 4], ∃ px py, refinePoint (R := Rat) 5 5
     (fun i j _ _ => rfl) (fun u v _ huv => by linarith) hz
   exact ⟨px, py, h, h1 (by norm_num)⟩
 
+/-- The statement as the property text reads it — **without** the "crop inside the map" hypothesis of
+`global_refine_toward_centre`.  False of the code: `global_refine_toward_centre_border_counterexample`. -/
+def TowardCentreEverywhere (R : Type) [Field R] [LinearOrder R] [IsStrictOrderedRing R] : Prop :=
+  ∀ (h w : Nat) (img : Nat → Nat → R) (g : R → R) (q cx cy : Nat) (δx δy : R), cx < w → cy < h →
+    (∀ i j, i < h → j < w → img i j = g (((j : R) - (cx + δx))^2 + ((i : R) - (cy + δy))^2)) →
+    (∀ u v, 0 ≤ u → u ≤ v → g v ≤ g u) →
+    0 < patchSum q (patch h w img q cx cy) →
+    ∃ px py, refinePoint h w img q cx cy = some (px, py) ∧
+      (0 ≤ δx → (cx : R) ≤ px) ∧ (δx ≤ 0 → px ≤ cx) ∧ (0 ≤ δy → (cy : R) ≤ py) ∧ (δy ≤ 0 → py ≤ cy)
+
+/-- The F-C07b witness: a 3×3 map sampling the bump `9 − d²` centred at (x = 2.25, y = 1), i.e. a
+quarter pixel to the right of the last column. -/
+def borderMap : Nat → Nat → Rat :=
+  fun i j => 9 - (((j : Rat) - (2 + 1/4)) * ((j : Rat) - (2 + 1/4)) + ((i : Rat) - 1) * ((i : Rat) - 1))
+
+/-- **Toward-centre is false when the patch crosses the map border** (finding F-C07b).  On
+`borderMap` the detector reports the right cell (2,1) (the maximum, nearest to the true centre
+2.25), but the 3×3 patch reads the zero padding beyond the last column, so the refined x is
+`1119/722 ≈ 1.55`: moved *left* by 0.45 px although the true centre lies to the *right* — the
+error grows from 0.25 to 0.70 px.  (The half-patch bound of C06 is unaffected: zero padding keeps
+the patch non-negative, `refine_bounded_partial` has no interior hypothesis.) -/
+theorem global_refine_toward_centre_border_counterexample :
+    globalRough1 (R := Rat) (1/5) 3 3 borderMap = ⟨some (2, 1), 143/16⟩ ∧
+    refinePoint (R := Rat) 3 3 borderMap 3 2 1 = some (1119/722, 1) ∧
+    ¬ TowardCentreEverywhere Rat := by
+  have h1 : globalRough1 (R := Rat) (1/5) 3 3 borderMap = ⟨some (2, 1), 143/16⟩ := by decide +kernel
+  have h2 : refinePoint (R := Rat) 3 3 borderMap 3 2 1 = some (1119/722, 1) := by decide +kernel
+  refine ⟨h1, h2, fun H => ?_⟩
+  have hz : 0 < patchSum 3 (patch (R := Rat) 3 3 borderMap 3 2 1) := by decide +kernel
+  obtain ⟨px, py, hp, hx, _⟩ := H 3 3 borderMap (fun u => 9 - u) 3 2 1 (1/4) 0 (by omega) (by omega)
+    (fun i j _ _ => by simp only [borderMap]; push_cast; ring) (fun u v _ huv => by linarith) hz
+  rw [h2] at hp
+  simp only [Option.some.injEq, Prod.mk.injEq] at hp
+  have := hx (by norm_num)
+  rw [← hp.1] at this
+  norm_num at this
+
 end SleapVerif.C07
